@@ -38,6 +38,47 @@ os.environ['VERMOUTH_VERIF'] = '1'
 
 
 # ----------------------------------------------------------------------------
+# signal handlers that raise (per-case time-outs of the harnesses) versus coverage.py
+# ----------------------------------------------------------------------------
+# Several harnesses interrupt a long-running call of the real code with a handler that RAISES (SIGVTALRM /
+# SIGALRM).  When the signal arrives while the interpreter is inside a coverage.py callback (anchor line
+# coverage, see Check._start_anchor_coverage) the exception unwinds through coverage's non-reentrant data lock,
+# the lock stays taken and the next traced call blocks for ever (observed: "TIMEOUT after 1200 s" of a check that
+# normally takes a minute).  Every handler registered through signal.signal is therefore wrapped: while a
+# coverage frame is on the stack the handler is postponed by 50 ms instead of being run.
+_real_signal = signal.signal
+_ITIMER_OF = {signal.SIGALRM: signal.ITIMER_REAL, signal.SIGVTALRM: signal.ITIMER_VIRTUAL,
+              signal.SIGPROF: signal.ITIMER_PROF}
+
+
+def _inside_coverage(frame, depth=12):
+    while frame is not None and depth:
+        if '/coverage/' in frame.f_code.co_filename:
+            return True
+        frame = frame.f_back
+        depth -= 1
+    return False
+
+
+def _safe_signal(signum, handler):
+    if not callable(handler) or signum not in _ITIMER_OF:
+        return _real_signal(signum, handler)
+
+    def wrapped(sig, frame, _h=handler):
+        if _inside_coverage(frame):
+            cur, interval = signal.getitimer(_ITIMER_OF[sig])
+            if cur == 0:      # one-shot timer that has fired: fire again shortly (a repeating timer fires by itself)
+                signal.setitimer(_ITIMER_OF[sig], 0.05, interval)
+            return None
+        return _h(sig, frame)
+    wrapped.__wrapped__ = handler
+    return _real_signal(signum, wrapped)
+
+
+signal.signal = _safe_signal
+
+
+# ----------------------------------------------------------------------------
 # protocol encoding (mirror of lean/VermouthModel/Proto.lean)
 # ----------------------------------------------------------------------------
 def enc(obj):
